@@ -159,7 +159,7 @@ func (t *taskState) runOp(k int) (res string) {
 		res := ue.DeriveRESstarAndSetKey(ue.AuthenticationSubs, autn, r.Bytes(16), "5G:mnc001.mcc001.3gppnetwork.org", "01", "001")
 		return fmt.Sprintf("%x %x %x %x", res, ue.Kamf, ue.KnasInt, ue.KnasEnc)
 	case 7:
-		p := r.Bytes(r.Pick(r.Range(1, 70), r.Range(1, 70), r.Range(250, 270), r.Range(500, 1100)))
+		p := r.Bytes(r.Pick(r.Range(1, 70), r.Range(1, 70), r.Range(1, 70), r.Range(250, 270), r.Range(500, 1100), r.Range(1, 70), r.Range(16500, 33000)))
 		err := security.NASEncrypt(uint8(r.Intn(3)), key16(r.Bytes(16)), uint32(r.Intn(1<<24)), 1, uint8(r.Intn(2)), p)
 		return fmt.Sprintf("%x %v", p, err)
 	default:
